@@ -94,7 +94,10 @@ def run(ctx):
         ctx.note("replayed_sample", cap)
     for v in vectors:
         F, D, E = v["F"], v["D"], v["E"]
-        da = L.build(F, D, E)
+        # the lattice energies are integers: the same spectrum held as int32 / int64 / big-endian float64 has the same regridded values
+        # (interpolation weights and the m0 scale are fractional whatever the storage type of the data)
+        store = ctx.rng.choice(("float64", "float64", "float64", "int32", "int64", ">f8"))
+        da = L.build(F, D, E, dtype=store)
         exp = np.array([[(c[0] / c[1]) if c[1] else np.nan for c in row] for row in v["out"]], dtype=float)
         flat = [x for row in E for x in row]
         ctx.case(("rg", tuple(F), tuple(D), tuple(flat), tuple(v["tf"]), tuple(v["td"]), v["m0"], v["rot"]), len(set(flat)) > 1)
@@ -129,7 +132,7 @@ def run(ctx):
                 problems.append("value at %s is %.12g, exact %.12g" % (k, got[k], exp[k]))
             if problems:
                 ctx.violation({"fn": name, "rot": v["rot"], "m0": v["m0"], "dir_stage": bool(v["td"]) or v["rot"] != -1, "freq_stage": bool(v["tf"])},
-                              "%s: %s" % (name, problems[0]), {"F": F, "D": D, "E": E, "tf": v["tf"], "td": v["td"], "m0": v["m0"], "rot": v["rot"]})
+                              "%s (data stored as %s): %s" % (name, store, problems[0]), {"store": store, "F": F, "D": D, "E": E, "tf": v["tf"], "td": v["td"], "m0": v["m0"], "rot": v["rot"]})
             else:
                 ctx.replayed()
     if vectors:
